@@ -119,6 +119,15 @@ package jsonpath
 //@ axiom extClosureList: forall a, i {A_Val[a][i]} :: RO(a) && a != arr(emptyList) && a != arr(fullList) ==> extVal(A_Val[a][i])
 //@ axiom extClosureMap: forall m, k Str {M_val[m][k]} :: extVal(M_val[m][k])
 
+// result lists (C01), see the section before retrieveFrame
+//@ smt (declare-fun RLn (Val Val Val) Int)
+//@ smt (declare-fun RLv (Val Val Val Int) Val)
+//@ smt (declare-fun RLok (Val) Bool)
+//@ smt (assert (forall ((n Val) (r Val) (c Val)) (! (>= (RLn n r c) 0) :pattern ((RLn n r c)))))
+//@ smt (declare-fun Kn (Int Val Val) Int)
+//@ smt (declare-fun Kv (Int Val Val Int) Val)
+//@ smt (assert (forall ((b Int) (r Val) (v Val)) (! (>= (Kn b r v) 0) :pattern ((Kn b r v)))))
+//@ smt (declare-fun skey ((Array Str Bool) Int) Str)
 //@ smt (declare-fun WFnode (Val) Bool)
 //@ smt (declare-fun WFquery (Val) Bool)
 //@ smt (declare-fun WFsub (Val) Bool)
@@ -148,7 +157,7 @@ package jsonpath
 //@ spec errLen(e errorRuntime) int = len(errNode(e).connectedText)
 //@ spec errRT(b *syntaxBasicNode) bool = rtOK(b.errorRuntime)
 //@ spec singleNext(b *syntaxBasicNode) bool = b.next == nil || chainSingle(b.next)
-//@ spec WFbasic(b *syntaxBasicNode) bool = b != nil && RO(b) && (b.errorRuntime != nil ==> RO(b.errorRuntime)) && hgt(b) >= 0 && (b.next != nil ==> WFnode(b.next) && height(b.next) < hgt(b))
+//@ spec WFbasic(b *syntaxBasicNode) bool = b != nil && Kdef(b) && RO(b) && (b.errorRuntime != nil ==> RO(b.errorRuntime)) && hgt(b) >= 0 && (b.next != nil ==> WFnode(b.next) && height(b.next) < hgt(b))
 //@ spec errOK(e errorRuntime) bool = (isType(e, ErrorMemberNotExist) && rtOK(asType(e, ErrorMemberNotExist).errorBasicRuntime)) || (isType(e, ErrorTypeUnmatched) && rtOK(asType(e, ErrorTypeUnmatched).errorBasicRuntime)) || (isType(e, ErrorFunctionFailed) && rtOK(asType(e, ErrorFunctionFailed).errorBasicRuntime))
 //@ spec errNode(e errorRuntime) *syntaxBasicNode = isType(e, ErrorMemberNotExist) ? asType(e, ErrorMemberNotExist).errorBasicRuntime.node : (isType(e, ErrorTypeUnmatched) ? asType(e, ErrorTypeUnmatched).errorBasicRuntime.node : asType(e, ErrorFunctionFailed).errorBasicRuntime.node)
 //@ spec ownsBuf(c *bufferContainer) bool = c != nil && held(c) && mine(c) && wf(c.result) && off(c.result) == 0 && (arr(c.result) == 0 || (mine(c.result) && !escaped(c.result)))
@@ -170,7 +179,30 @@ package jsonpath
 //@ spec WFrootDef(n *syntaxRootIdentifier) bool = RLrootDef(n) && n != nil && height(n) == hgt(n.syntaxBasicNode) && WFbasic(n.syntaxBasicNode) && (chainSingle(n) ==> singleNext(n.syntaxBasicNode))
 //@ spec WFcurrentDef(n *syntaxCurrentRootIdentifier) bool = RLcurrentDef(n) && n != nil && height(n) == hgt(n.syntaxBasicNode) && WFbasic(n.syntaxBasicNode) && (chainSingle(n) ==> singleNext(n.syntaxBasicNode))
 //@ spec WFsingleDef(n *syntaxChildSingleIdentifier) bool = RLsingleDef(n) && n != nil && height(n) == hgt(n.syntaxBasicNode) && WFbasic(n.syntaxBasicNode) && errRT(n.syntaxBasicNode) && (chainSingle(n) ==> singleNext(n.syntaxBasicNode))
-//@ spec WFwildcardDef(n *syntaxChildWildcardIdentifier) bool = !RLok(n) && n != nil && height(n) == hgt(n.syntaxBasicNode) && WFbasic(n.syntaxBasicNode) && errRT(n.syntaxBasicNode) && !chainSingle(n)
+// A wildcard over an array applies the continuation to every element in index order: its result list is the concatenation
+// of the continuation's lists.  sumL(b, r, A, o, j): total length for the first j elements (prefix sum of Kn);
+// segL(b, r, A, o, m, x): the element whose segment holds position x of the concatenation (exists for every x below the
+// total, the steps being non-negative: arithmetic fact stated as an axiom).
+//@ smt (declare-fun sumL (Int Val (Array Int Val) Int Int) Int)
+//@ smt (declare-fun segL (Int Val (Array Int Val) Int Int Int) Int)
+//@ smt (assert (forall ((b Int) (r Val) (A (Array Int Val)) (o Int)) (! (= (sumL b r A o 0) 0) :pattern ((sumL b r A o 0)))))
+//@ smt (assert (forall ((b Int) (r Val) (A (Array Int Val)) (o Int) (j Int)) (! (=> (<= 0 j) (= (sumL b r A o (+ j 1)) (+ (sumL b r A o j) (Kn b r (select A (idx o j)))))) :pattern ((sumL b r A o j) (select A (idx o j))))))
+//@ smt (assert (forall ((b Int) (r Val) (A (Array Int Val)) (o Int) (m Int) (x Int)) (! (=> (and (<= 0 x) (< x (sumL b r A o m)) (<= 0 m)) (and (<= 0 (segL b r A o m x)) (< (segL b r A o m x) m) (<= (sumL b r A o (segL b r A o m x)) x) (< x (sumL b r A o (+ (segL b r A o m x) 1))))) :pattern ((segL b r A o m x)))))
+// The same over an object, members in ascending key order (skey).
+//@ smt (declare-fun sumM (Int Val (Array Str Val) (Array Str Bool) Int) Int)
+//@ smt (declare-fun segM (Int Val (Array Str Val) (Array Str Bool) Int Int) Int)
+//@ smt (assert (forall ((b Int) (r Val) (MV (Array Str Val)) (MD (Array Str Bool))) (! (= (sumM b r MV MD 0) 0) :pattern ((sumM b r MV MD 0)))))
+//@ smt (assert (forall ((b Int) (r Val) (MV (Array Str Val)) (MD (Array Str Bool)) (j Int)) (! (=> (<= 0 j) (= (sumM b r MV MD (+ j 1)) (+ (sumM b r MV MD j) (Kn b r (select MV (skey MD j)))))) :pattern ((sumM b r MV MD j) (skey MD j)))))
+//@ smt (assert (forall ((b Int) (r Val) (MV (Array Str Val)) (MD (Array Str Bool)) (m Int) (x Int)) (! (=> (and (<= 0 x) (< x (sumM b r MV MD m)) (<= 0 m)) (and (<= 0 (segM b r MV MD m x)) (< (segM b r MV MD m x) m) (<= (sumM b r MV MD (segM b r MV MD m x)) x) (< x (sumM b r MV MD (+ (segM b r MV MD m x) 1))))) :pattern ((segM b r MV MD m x)))))
+//@ spec mapOf(c any) map[string]interface{} = asType(c, map[string]interface{})
+//@ spec sumMof(b *syntaxBasicNode, r any, m map[string]interface{}, j int) int = sumM(b, r, M_val[m], M_dom[m], j)
+//@ spec segMof(b *syntaxBasicNode, r any, m map[string]interface{}, x int) int = segM(b, r, M_val[m], M_dom[m], len(m), x)
+//@ spec memberM(m map[string]interface{}, t int) any = M_val[m][skey(M_dom[m], t)]
+//@ spec RLwildcardMap(n *syntaxChildWildcardIdentifier) bool = (forall r Val, c Val {RLn(n, r, c)} :: isType(c, map[string]interface{}) ==> RLn(n, r, c) == sumMof(n.syntaxBasicNode, r, mapOf(c), len(mapOf(c)))) && (forall r Val, c Val, x {RLv(n, r, c, x)} :: isType(c, map[string]interface{}) && 0 <= x && x < RLn(n, r, c) ==> RLv(n, r, c, x) == Kv(n.syntaxBasicNode, r, memberM(mapOf(c), segMof(n.syntaxBasicNode, r, mapOf(c), x)), x - sumMof(n.syntaxBasicNode, r, mapOf(c), segMof(n.syntaxBasicNode, r, mapOf(c), x))))
+//@ spec listOf(c any) []interface{} = asType(c, []interface{})
+//@ spec RLwildcardList(n *syntaxChildWildcardIdentifier) bool = (forall r Val, c Val {RLn(n, r, c)} :: isType(c, []interface{}) ==> RLn(n, r, c) == sumL(n.syntaxBasicNode, r, A_Val[arr(listOf(c))], off(listOf(c)), len(listOf(c)))) && (forall r Val, c Val, x {RLv(n, r, c, x)} :: isType(c, []interface{}) && 0 <= x && x < RLn(n, r, c) ==> RLv(n, r, c, x) == Kv(n.syntaxBasicNode, r, A_Val[arr(listOf(c))][idxOf(off(listOf(c)), segL(n.syntaxBasicNode, r, A_Val[arr(listOf(c))], off(listOf(c)), len(listOf(c)), x))], x - sumL(n.syntaxBasicNode, r, A_Val[arr(listOf(c))], off(listOf(c)), segL(n.syntaxBasicNode, r, A_Val[arr(listOf(c))], off(listOf(c)), len(listOf(c)), x))))
+//@ spec RLwildcardDef(n *syntaxChildWildcardIdentifier) bool = RLok(n) ==> Kok(n.syntaxBasicNode) && RLwildcardList(n) && RLwildcardMap(n) && (forall r Val, c Val {RLn(n, r, c)} :: !isType(c, []interface{}) && !isType(c, map[string]interface{}) ==> RLn(n, r, c) == 0)
+//@ spec WFwildcardDef(n *syntaxChildWildcardIdentifier) bool = RLwildcardDef(n) && n != nil && height(n) == hgt(n.syntaxBasicNode) && WFbasic(n.syntaxBasicNode) && errRT(n.syntaxBasicNode) && !chainSingle(n)
 //@ spec WFunionDef(n *syntaxUnionQualifier) bool = !RLok(n) && n != nil && height(n) == hgt(n.syntaxBasicNode) && WFunionAt(n) && (chainSingle(n) ==> singleNext(n.syntaxBasicNode) && len(n.subscripts) == 1 && isType(elemAt(n.subscripts, off(n.subscripts)), *syntaxIndexSubscript))
 //@ spec WFmultiDef(n *syntaxChildMultiIdentifier) bool = !RLok(n) && n != nil && height(n) == hgt(n.syntaxBasicNode) && WFbasic(n.syntaxBasicNode) && errRT(n.syntaxBasicNode) && wf(n.identifiers) && (arr(n.identifiers) == 0 || RO(n.identifiers)) && (forall k {elemAt(n.identifiers, k)} :: off(n.identifiers) <= k && k < off(n.identifiers) + len(n.identifiers) ==> elemAt(n.identifiers, k) != nil && WFnode(elemAt(n.identifiers, k)) && height(elemAt(n.identifiers, k)) < height(n) && (isType(elemAt(n.identifiers, k), *syntaxChildSingleIdentifier) ==> asType(elemAt(n.identifiers, k), *syntaxChildSingleIdentifier) != nil)) && (n.isAllWildcard ==> WFunionAt(n.unionQualifier) && WFnode(n.unionQualifier) && height(n.unionQualifier) < height(n)) && !chainSingle(n)
 //@ spec WFrecursiveDef(n *syntaxRecursiveChildIdentifier) bool = !RLok(n) && n != nil && height(n) == hgt(n.syntaxBasicNode) && WFbasic(n.syntaxBasicNode) && errRT(n.syntaxBasicNode) && n.syntaxBasicNode.next != nil && !chainSingle(n)
@@ -247,6 +279,9 @@ package jsonpath
 //@   ensures sorted: forall i, j {elemAt(poolSlice(ret), i), elemAt(poolSlice(ret), j)} :: off(poolSlice(ret)) <= i && i < j && j < off(poolSlice(ret)) + len(poolSlice(ret)) ==> strLt(elemAt(poolSlice(ret), i), elemAt(poolSlice(ret), j))
 //@   ensures dom: forall i {elemAt(poolSlice(ret), i)} :: off(poolSlice(ret)) <= i && i < off(poolSlice(ret)) + len(poolSlice(ret)) ==> has(srcMap, elemAt(poolSlice(ret), i))
 // (onto follows from length + strict order + dom by counting: bridge lemma, see DESIGN.md)
+// skey(D, t): the t-th key of domain D in ascending order.  A strictly ascending list of |D| keys of D is that enumeration
+// (uniqueness of the sorted enumeration of a finite set: assumed, not proved here).
+//@   assume forall t {poolSlice(ret)[t]} {skey(M_dom[srcMap], t)} :: 0 <= t && t < len(poolSlice(ret)) ==> poolSlice(ret)[t] == skey(M_dom[srcMap], t)
 //@   loop 1 invariant 0 <= index && index == rangepos && index <= length && held(sortKeys) && mine(sortKeys)
 //@   loop 1 invariant len(poolSlice(sortKeys)) == length && (arr(poolSlice(sortKeys)) == 0 || mine(poolSlice(sortKeys))) && wf(poolSlice(sortKeys)) && !wasHeld(sortKeys) && !wasMine(sortKeys) && (arr(poolSlice(sortKeys)) == 0 || (!wasMine(poolSlice(sortKeys)) && !escaped(poolSlice(sortKeys))))
 //@   loop 1 invariant filled: forall j {elemAt(poolSlice(sortKeys), j)} :: off(poolSlice(sortKeys)) <= j && j < off(poolSlice(sortKeys)) + index ==> elemAt(poolSlice(sortKeys), j) == rangeKey(rangeiter, j - off(poolSlice(sortKeys)))
@@ -267,12 +302,9 @@ package jsonpath
 // define them per step kind are in the RL*Def macros (taken from the step-by-step definition of the property); RLok(n)
 // says the chain below n consists of step kinds that have such equations and delivers plain values (no accessors).
 // K*(b, ...): the continuation of basic node b applied to one selected value.
-//@ smt (declare-fun RLn (Val Val Val) Int)
-//@ smt (declare-fun RLv (Val Val Val Int) Val)
-//@ smt (declare-fun RLok (Val) Bool)
-//@ smt (assert (forall ((n Val) (r Val) (c Val)) (! (>= (RLn n r c) 0) :pattern ((RLn n r c)))))
-//@ spec Kn(b *syntaxBasicNode, r any, v any) int = b.next == nil ? 1 : RLn(b.next, r, v)
-//@ spec Kv(b *syntaxBasicNode, r any, v any, i int) any = b.next == nil ? v : RLv(b.next, r, v, i)
+// Kn / Kv: rigid names for the continuation of a basic node, tied to its `next` link by Kdef (part of WFbasic: the tree is
+// read-only during evaluation)
+//@ spec Kdef(b *syntaxBasicNode) bool = (forall r Val, v Val {Kn(b, r, v)} :: Kn(b, r, v) == (b.next == nil ? 1 : RLn(b.next, r, v))) && (forall r Val, v Val, i {Kv(b, r, v, i)} :: Kv(b, r, v, i) == (b.next == nil ? v : RLv(b.next, r, v, i)))
 //@ spec Kok(b *syntaxBasicNode) bool = b.next == nil ? !b.accessorMode : RLok(b.next)
 //@ spec appended(container *bufferContainer, n int) bool = len(container.result) == old(len(container.result)) + n
 //@ spec resAt(container *bufferContainer, i int) any = elemAt(container.result, old(len(container.result)) + i)
@@ -336,10 +368,10 @@ package jsonpath
 //@   decreases 3*hgt(i)
 //@   requires WFbasic(i) && errRT(i)
 //@   include retrieveFrame
-//@   ensures count: Kok(i) && currentMap != nil && has(currentMap, key) ==> appended(container, Kn(i, root, currentMap[key]))
-//@   ensures values: Kok(i) && currentMap != nil && has(currentMap, key) ==> (forall k {Kv(i, root, currentMap[key], k)} :: 0 <= k && k < Kn(i, root, currentMap[key]) ==> resAt(container, k) == Kv(i, root, currentMap[key], k))
-//@   ensures fails: Kok(i) && currentMap != nil && has(currentMap, key) && old(len(container.result)) == 0 ==> ((ret == nil) <==> Kn(i, root, currentMap[key]) > 0)
-//@   ensures absent: !(currentMap != nil && has(currentMap, key)) ==> appended(container, 0) && ret != nil
+//@   ensures count: Kok(i) && has(currentMap, key) ==> appended(container, Kn(i, root, currentMap[key]))
+//@   ensures values: Kok(i) && has(currentMap, key) ==> (forall k {Kv(i, root, currentMap[key], k)} :: 0 <= k && k < Kn(i, root, currentMap[key]) ==> resAt(container, k) == Kv(i, root, currentMap[key], k))
+//@   ensures fails: Kok(i) && has(currentMap, key) && old(len(container.result)) == 0 ==> ((ret == nil) <==> Kn(i, root, currentMap[key]) > 0)
+//@   ensures absent: !has(currentMap, key) ==> appended(container, 0) && ret != nil
 //@   ensures single: singleNext(i) ==> len(container.result) <= old(len(container.result)) + 1
 //@   ensures missing: !(currentMap != nil && has(currentMap, key)) ==> isType(ret, ErrorMemberNotExist) && asType(ret, ErrorMemberNotExist).errorBasicRuntime == i.errorRuntime
 //@   ensures leafplain: currentMap != nil && has(currentMap, key) && i.next == nil && !i.accessorMode ==> ret == nil && len(container.result) == old(len(container.result)) + 1 && elemAt(container.result, old(len(container.result))) == currentMap[key]
@@ -455,24 +487,38 @@ package jsonpath
 //@   ensures fresh: fresh(ret) && wf(ret)
 
 //@ func (*syntaxChildWildcardIdentifier).retrieve
-//@   props C03 C04 C05 C06 C20 C15
+//@   props C01 C03 C04 C05 C06 C20 C15
 //@   implements syntaxNode.retrieve
 //@   unfold WFnode(this) ==> WFwildcardDef(i)
 //@   ensures mismatch: !isType(current, map[string]interface{}) && !isType(current, []interface{}) ==> mismatch(ret, i.errorRuntime, "object/array", current) && len(container.result) == old(len(container.result))
 
 //@ func (*syntaxChildWildcardIdentifier).retrieveMap
-//@   props C03 C04 C05 C06 C07 C20
+//@   props C01 C03 C04 C05 C06 C07 C20
 //@   requires i != nil && WFbasic(i.syntaxBasicNode) && errRT(i.syntaxBasicNode)
 //@   include retrieveFrame
 //@   decreases 3*hgt(i.syntaxBasicNode) + 1
+//@   ensures count: Kok(i.syntaxBasicNode) ==> appended(container, sumMof(i.syntaxBasicNode, root, srcMap, len(srcMap)))
+//@   ensures values: Kok(i.syntaxBasicNode) ==> (forall t, k {Kv(i.syntaxBasicNode, root, memberM(srcMap, t), k)} :: 0 <= t && t < len(srcMap) && 0 <= k && k < Kn(i.syntaxBasicNode, root, memberM(srcMap, t)) ==> resAt(container, sumMof(i.syntaxBasicNode, root, srcMap, t) + k) == Kv(i.syntaxBasicNode, root, memberM(srcMap, t), k))
+//@   ensures fails: Kok(i.syntaxBasicNode) && old(len(container.result)) == 0 ==> ((ret == nil) <==> sumMof(i.syntaxBasicNode, root, srcMap, len(srcMap)) > 0)
 //@   loop 1 invariant bufInv(container) && errInv(deepestTextLen, deepestError) && ownsKeys(sortKeys) && wf(rangeslice1)
+//@   loop 1 invariant keys: sameSlice(rangeslice1, poolSlice(sortKeys)) && len(rangeslice1) == len(srcMap) && (forall t {rangeslice1[t]} {skey(M_dom[srcMap], t)} :: 0 <= t && t < len(rangeslice1) ==> rangeslice1[t] == skey(M_dom[srcMap], t) && has(srcMap, rangeslice1[t]))
+//@   loop 1 invariant cnt: Kok(i.syntaxBasicNode) ==> appended(container, sumMof(i.syntaxBasicNode, root, srcMap, rangeindex1 + 1))
+//@   loop 1 invariant vals: Kok(i.syntaxBasicNode) ==> (forall t, k {Kv(i.syntaxBasicNode, root, memberM(srcMap, t), k)} :: 0 <= t && t <= rangeindex1 && 0 <= k && k < Kn(i.syntaxBasicNode, root, memberM(srcMap, t)) ==> resAt(container, sumMof(i.syntaxBasicNode, root, srcMap, t) + k) == Kv(i.syntaxBasicNode, root, memberM(srcMap, t), k))
+//@   loop 1 invariant mono: Kok(i.syntaxBasicNode) ==> (forall t {sumMof(i.syntaxBasicNode, root, srcMap, t)} :: 0 <= t && t <= rangeindex1 ==> 0 <= sumMof(i.syntaxBasicNode, root, srcMap, t) && sumMof(i.syntaxBasicNode, root, srcMap, t) + Kn(i.syntaxBasicNode, root, memberM(srcMap, t)) <= len(container.result) - old(len(container.result)))
 
+//@ spec sumLof(b *syntaxBasicNode, r any, s []interface{}, j int) int = sumL(b, r, A_Val[arr(s)], off(s), j)
 //@ func (*syntaxChildWildcardIdentifier).retrieveList
-//@   props C03 C04 C05 C06 C07 C20
-//@   requires i != nil && WFbasic(i.syntaxBasicNode) && errRT(i.syntaxBasicNode) && docArr(srcList)
+//@   props C01 C03 C04 C05 C06 C07 C20
+//@   requires i != nil && WFbasic(i.syntaxBasicNode) && errRT(i.syntaxBasicNode) && docArr(srcList) && wf(srcList)
 //@   include retrieveFrame
 //@   decreases 3*hgt(i.syntaxBasicNode) + 1
+//@   ensures count: Kok(i.syntaxBasicNode) ==> appended(container, sumLof(i.syntaxBasicNode, root, srcList, len(srcList)))
+//@   ensures values: Kok(i.syntaxBasicNode) ==> (forall t, k {Kv(i.syntaxBasicNode, root, A_Val[arr(srcList)][idxOf(off(srcList), t)], k)} :: 0 <= t && t < len(srcList) && 0 <= k && k < Kn(i.syntaxBasicNode, root, A_Val[arr(srcList)][idxOf(off(srcList), t)]) ==> resAt(container, sumLof(i.syntaxBasicNode, root, srcList, t) + k) == Kv(i.syntaxBasicNode, root, A_Val[arr(srcList)][idxOf(off(srcList), t)], k))
+//@   ensures fails: Kok(i.syntaxBasicNode) && old(len(container.result)) == 0 ==> ((ret == nil) <==> sumLof(i.syntaxBasicNode, root, srcList, len(srcList)) > 0)
 //@   loop 1 invariant bufInv(container) && errInv(deepestTextLen, deepestError)
+//@   loop 1 invariant cnt: Kok(i.syntaxBasicNode) ==> appended(container, sumLof(i.syntaxBasicNode, root, srcList, rangeindex1 + 1))
+//@   loop 1 invariant vals: Kok(i.syntaxBasicNode) ==> (forall t, k {Kv(i.syntaxBasicNode, root, A_Val[arr(srcList)][idxOf(off(srcList), t)], k)} :: 0 <= t && t <= rangeindex1 && 0 <= k && k < Kn(i.syntaxBasicNode, root, A_Val[arr(srcList)][idxOf(off(srcList), t)]) ==> resAt(container, sumLof(i.syntaxBasicNode, root, srcList, t) + k) == Kv(i.syntaxBasicNode, root, A_Val[arr(srcList)][idxOf(off(srcList), t)], k))
+//@   loop 1 invariant mono: Kok(i.syntaxBasicNode) ==> (forall t {sumLof(i.syntaxBasicNode, root, srcList, t)} :: 0 <= t && t <= rangeindex1 ==> 0 <= sumLof(i.syntaxBasicNode, root, srcList, t) && sumLof(i.syntaxBasicNode, root, srcList, t) + Kn(i.syntaxBasicNode, root, A_Val[arr(srcList)][idxOf(off(srcList), t)]) <= len(container.result) - old(len(container.result)))
 
 //@ func (*syntaxChildMultiIdentifier).retrieve
 //@   props C03 C04 C05 C06 C20 C15
